@@ -140,7 +140,7 @@ func c16Blocked(c *vf.Ctx) {
 	if !c.Active(sub) {
 		return
 	}
-	n := c.N(60, 1500)
+	n := c.N(60, 6000)
 	pid := Keys()["ed25519"][0].ID
 	for i := 0; i < n; i++ {
 		if !c.Mine(sub, i) || c16TooManyHangs() {
@@ -262,7 +262,7 @@ func c16HostNoTopic(c *vf.Ctx) {
 	if !c.Active(sub) {
 		return
 	}
-	n := c.N(32, 200)
+	n := c.N(32, 800)
 	for i := 0; i < n; i++ {
 		if !c.Mine(sub, i) || c16TooManyHangs() {
 			continue
@@ -412,7 +412,7 @@ func c16Concurrent(c *vf.Ctx) {
 	if !c.Active(sub) {
 		return
 	}
-	n := c.N(800, 5000)
+	n := c.N(800, 20000)
 	for i := 0; i < n; i++ {
 		if !c.Mine(sub, i) || c16TooManyHangs() {
 			continue
